@@ -46,7 +46,15 @@ def analyse_copy(root):
     """Extract facts of the scratch copy (not cached) and load them."""
     out = tempfile.mkdtemp(prefix='facts-', dir=os.path.dirname(root))
     tdir = 'target-mut' if _SLOT is None else 'target-mut-%d' % _SLOT
-    rc, log = facts.run_extractor(root, out, os.path.join(facts.CACHE, tdir))
+    # several thorough checks may run at once (one per property): a target directory is used by one extraction at a time
+    import fcntl
+    os.makedirs(facts.CACHE, exist_ok=True)
+    with open(os.path.join(facts.CACHE, tdir + '.lock'), 'w') as lk:
+        fcntl.flock(lk, fcntl.LOCK_EX)
+        try:
+            rc, log = facts.run_extractor(root, out, os.path.join(facts.CACHE, tdir))
+        finally:
+            fcntl.flock(lk, fcntl.LOCK_UN)
     if rc != 0:
         return None, log[-3000:]
     prog = facts.Program(out)
